@@ -1,6 +1,7 @@
 import IbModel.Model.Closures
 import IbModel.Model.Planner
 import IbModel.Model.Combiners
+import IbModel.Model.UserCombiners
 /-!
 # Programs: the named function library and the translation of builder calls to node chains
 
@@ -28,6 +29,8 @@ inductive BatchFn | each (f : Fn) | rev | sumall
   | droplast | dupfirst
 deriving Repr
 inductive Comb | count | sum | min | max | minT | maxT | distinctSet | topK (k : Nat)
+  /-- user combiners with non-`Option` accumulators (`Model/UserCombiners.lean`) -/
+  | uSumMod (m : Int) | uUnion | uMaxAbs
 deriving Repr
 
 def natToDec (n : Nat) : String := toString n
@@ -141,6 +144,9 @@ def Comb.toCombiner : Comb → VCombiner
       merge := fun a b => if a.toList.isEmpty then b else ofList (b.toList.foldl setInsert a.toList),
       finish := id, build := fun xs => ofList (xs.foldl setInsert []) }
   | .topK k => topKVal k
+  | .uSumMod m => userSumMod m
+  | .uUnion => userUnion
+  | .uMaxAbs => userMaxAbs
 
 /-! ## steps -/
 
